@@ -3,6 +3,8 @@ package main
 import (
 	"fmt"
 	nurl "net/url"
+	"sort"
+	"strconv"
 	"strings"
 
 	distiller "github.com/markusmobius/go-domdistiller"
@@ -121,18 +123,17 @@ func addTextBlocksCase(c *Corr, src string, pageURL *nurl.URL, skipUnlikely bool
 		flags = append(flags, b01(b.Flags[i])+b01(b.Titles[i]))
 	}
 	c.add(sb.String(), strings.Join(init, ";")+" | "+strings.Join(flags, " "), replay)
-	// premise of C03.flag_per_block: the filters only merge adjacent blocks or drop whole
-	// blocks — the final blocks hold Text elements in document order, each at most once, and
-	// every initial block lies inside one final block or is dropped as a whole
+	// premise of C03.flag_per_block: every final block is a union of whole initial blocks and
+	// no Text element is in two final blocks.  (Order is not part of it: BlockProximityFusion can
+	// merge a block into an older one across a block that stays — Model/Filters.lean, pfStep —
+	// and the output is generated from the element list, not from the blocks.)
 	owner := map[int]int{}
-	last := -1
-	ordered := true
+	twice := false
 	for bi, f := range b.Final {
 		for _, m := range f.Members {
-			if m <= last {
-				ordered = false
+			if owner[m] != 0 {
+				twice = true
 			}
-			last = m
 			owner[m] = bi + 1
 		}
 	}
@@ -144,8 +145,160 @@ func addTextBlocksCase(c *Corr, src string, pageURL *nurl.URL, skipUnlikely bool
 			}
 		}
 	}
-	next := len(b.Groups)
-	if !ordered || split || next != len(b.Groups) {
-		c.premiseFailures = append(c.premiseFailures, fmt.Sprintf("final blocks are not merges of initial blocks in document order (ordered=%v split=%v)", ordered, split))
+	if twice || split {
+		c.premiseFailures = append(c.premiseFailures, fmt.Sprintf("final blocks are not unions of whole initial blocks (twice=%v split=%v)", twice, split))
 	}
+}
+
+// filters: the article extractor — the block list after each of its filters, the word count and
+// the flags ApplyToModel writes (Model/Filters.lean).  Inputs are the initial blocks of the
+// real CreateTextDocument; the atoms are the real answers of the two text tests (read off the
+// labels after the first logged stage) and the DOM answers two filters read.
+var filterLabelOrder = []string{
+	"de.l3s.boilerpipe/TITLE", "de.l3s.boilerpipe/MIGHT_BE_CONTENT", "de.l3s.boilerpipe/VERY_LIKELY_CONTENT",
+	"de.l3s.boilerpipe/LI", "de.l3s.boilerpipe/HEADING", "de.l3s.boilerpipe/H1", "de.l3s.boilerpipe/H2", "de.l3s.boilerpipe/H3",
+	"BOILERPLATE_HEADING_FUSED", "STRICTLY_NOT_CONTENT", "SIBLING_OF_MAIN_CONTENT"}
+
+func filterLabels(ls []string) (string, bool) {
+	out := []byte("00000000000")
+	for _, l := range ls {
+		found := false
+		for i, n := range filterLabelOrder {
+			if n == l {
+				out[i] = '1'
+				found = true
+			}
+		}
+		if !found {
+			return "", false
+		}
+	}
+	return string(out), true
+}
+
+func traceBlockStr(b distiller.VerifTraceBlockT) string {
+	var ms []string
+	for _, m := range b.Members {
+		ms = append(ms, fmt.Sprint(m))
+	}
+	ls, _ := filterLabels(b.Labels)
+	return fmt.Sprintf("%s/%d/%d/%d/%d/%d/%s/%s", strings.Join(ms, ","), b.NumWords, b.NumAnchor, b.TagLevel, b.OffStart, b.OffEnd, ls, b01(b.IsContent))
+}
+
+func addFiltersCase(c *Corr, rep *Report, src string, pageURL *nurl.URL, skipUnlikely bool, replay interface{}) {
+	d := parseDoc(src)
+	root := d.elementRoot()
+	if root == nil {
+		return
+	}
+	t := distiller.VerifFilterTrace(root, pageURL, skipUnlikely)
+	if len(t.Stages) != 13 {
+		c.premiseFailures = append(c.premiseFailures, fmt.Sprintf("the article extractor logged %d stages, 13 expected", len(t.Stages)))
+		return
+	}
+	init := t.Stages[0].Blocks
+	first := t.Stages[1].Blocks // after TerminatingBlocksFinder, DocumentTitleMatch, NumWordsRulesClassifier
+	if len(first) != len(init) || len(t.Atoms) != len(init) {
+		c.premiseFailures = append(c.premiseFailures, "the first three filters changed the number of blocks")
+		return
+	}
+	var sb strings.Builder
+	fmt.Fprintf(&sb, "%d", len(init))
+	for _, b := range init {
+		ls, ok := filterLabels(b.Labels)
+		if !ok {
+			c.premiseFailures = append(c.premiseFailures, fmt.Sprintf("a label outside the modelled set: %v", b.Labels))
+			return
+		}
+		fmt.Fprintf(&sb, " %d", len(b.Members))
+		for _, m := range b.Members {
+			fmt.Fprintf(&sb, " %d", m)
+		}
+		fmt.Fprintf(&sb, " %d %d %d %d %d %s %s", b.NumWords, b.NumAnchor, b.TagLevel, b.OffStart, b.OffEnd, ls, b01(b.IsContent))
+	}
+	has := func(b distiller.VerifTraceBlockT, l string) bool {
+		for _, x := range b.Labels {
+			if x == l {
+				return true
+			}
+		}
+		return false
+	}
+	for i, a := range t.Atoms {
+		fmt.Fprintf(&sb, " %d %s %d %d %s %s", a.RepParent, hx(a.RepKind), a.GpFirst, a.GpLast,
+			b01(has(first[i], "STRICTLY_NOT_CONTENT")), b01(has(first[i], "de.l3s.boilerpipe/TITLE")))
+	}
+	var stages []string
+	merges := 0
+	for _, s := range t.Stages[1:] {
+		var bs []string
+		for _, b := range s.Blocks {
+			bs = append(bs, traceBlockStr(b))
+		}
+		stages = append(stages, b01(s.Changed)+":"+strings.Join(bs, ";"))
+	}
+	final := t.Stages[len(t.Stages)-1].Blocks
+	for _, b := range final {
+		if len(b.Members) > 1 {
+			merges++
+		}
+	}
+	var cm, tm []string
+	for i := range t.Flags {
+		if t.Flags[i] {
+			cm = append(cm, fmt.Sprint(i))
+		}
+		if t.Titles[i] {
+			tm = append(tm, fmt.Sprint(i))
+		}
+	}
+	// ApplyToModel writes per block, in block order: compare as the model lists them
+	var cm2, tm2 []string
+	for _, b := range final {
+		if b.IsContent {
+			for _, m := range b.Members {
+				cm2 = append(cm2, fmt.Sprint(m))
+				if has(b, "de.l3s.boilerpipe/TITLE") {
+					tm2 = append(tm2, fmt.Sprint(m))
+				}
+			}
+		}
+	}
+	sortNumStrings(cm2)
+	sortNumStrings(tm2)
+	if strings.Join(cm, ",") != strings.Join(cm2, ",") || strings.Join(tm, ",") != strings.Join(tm2, ",") {
+		c.premiseFailures = append(c.premiseFailures, fmt.Sprintf("ApplyToModel flags %v/%v differ from the content blocks' members %v/%v", cm, tm, cm2, tm2))
+	}
+	if rep != nil {
+		rep.histN("filters-initial-blocks", len(init))
+		rep.histN("filters-final-blocks", len(final))
+		rep.histN("filters-merged-final-blocks", merges)
+		for k, s := range t.Stages[1:] {
+			if s.Changed {
+				rep.hist(fmt.Sprintf("filters-stage-%02d-changed", k+3))
+			}
+		}
+	}
+	impl := strings.Join(stages, " | ") + fmt.Sprintf(" | wc=%d c=%s t=%s", t.WordCount, strings.Join(unsortedMembers(final, false, has), ","), strings.Join(unsortedMembers(final, true, has), ","))
+	c.add(sb.String(), impl, replay)
+}
+
+func unsortedMembers(final []distiller.VerifTraceBlockT, title bool, has func(distiller.VerifTraceBlockT, string) bool) []string {
+	var out []string
+	for _, b := range final {
+		if b.IsContent && (!title || has(b, "de.l3s.boilerpipe/TITLE")) {
+			for _, m := range b.Members {
+				out = append(out, fmt.Sprint(m))
+			}
+		}
+	}
+	return out
+}
+
+func sortNumStrings(s []string) {
+	sort.Slice(s, func(i, j int) bool {
+		a, _ := strconv.Atoi(s[i])
+		b, _ := strconv.Atoi(s[j])
+		return a < b
+	})
 }
